@@ -415,6 +415,17 @@ class Sym:
 # ---------------------------------------------------------------------------
 # R: sympy reals
 # ---------------------------------------------------------------------------
+INCREASING = {}      # sympy Symbol -> (chain id, position): precondition "stamps strictly increasing" of the table contracts
+
+
+def increasing_stamps(n, name="t", start=0):
+    """n fresh-named real symbols t<start>, ... declared strictly increasing (Increments / IMU / trajectory schema)"""
+    syms = [sp.Symbol("%s%d" % (name, start + k), real=True) for k in range(n)]
+    cid = (name, tuple(s_.name for s_ in syms))
+    for k, s_ in enumerate(syms):
+        INCREASING[s_] = (cid, k)
+    return syms
+
 def exact(v):
     """The rational a decimal literal spells (assumption A1)."""
     if isinstance(v, (bool, _np.bool_)):
@@ -511,6 +522,12 @@ class RSym(Sym):
     @staticmethod
     def _cmp(name, a, b):
         d = a - b
+        # symbols declared strictly increasing (time stamps of a table): pandas compares index labels while aligning and
+        # sorting, in an order that depends on hashing; the declared order answers without forking
+        ca, cb = INCREASING.get(a), INCREASING.get(b)
+        if ca is not None and cb is not None and ca[0] == cb[0]:
+            s = (ca[1] > cb[1]) - (ca[1] < cb[1])
+            return {"lt": s < 0, "le": s <= 0, "gt": s > 0, "ge": s >= 0, "eq": s == 0}[name]
         if d.is_number and d.is_comparable:
             # concrete (possibly irrational) numbers: decide by exact sign
             s = 0 if d == 0 else (1 if d.is_positive else (-1 if d.is_negative else None))
